@@ -1,4 +1,263 @@
-//! C10 — stub, not built yet.
+//! C10 — a source that fails to build has no effect on anything submitted afterwards; a line that
+//! fails at run time is not re-executed by later lines.
+//!
+//! A case is a *history* on one interpreter: good sources (definitions, variables, pushes), then a
+//! rejected source (a well-formed prefix that leaves any combination of open control structures,
+//! definitions, builders and meta blocks; a failing token; trailing text), then probe sources.
+//! Correspondence: the whole history is one `C10 sess` request — the session model must give the same
+//! result and the same interpreter state after every source, and the same final bytecode.
+//! Oracle (implementation only, the property's own statement): the history with the rejected source
+//! and the history without it are run on two copies; after the rejected source and after every probe
+//! the two interpreters must be in the same state and every probe must give the same result and
+//! output. For a line that fails while running (REPL style: compile, run, abort_run on failure) the
+//! later lines must all succeed and must not print the failed line's marker again.
+use crate::canon;
+use crate::progen::{gen_program, GenCfg};
+use crate::props::c01::{dict_for, lex_all};
+use crate::rng::Rng;
+use crate::vmcanon;
 use crate::Ctx;
+use xeh::prelude::*;
 
-pub fn run(_ctx: &mut Ctx) {}
+pub const LIMIT: usize = 30000;
+
+pub fn rel_di(dict0: usize, n: usize) -> String {
+    if n >= dict0 && n != 0 { format!("+{}", n - dict0) } else { format!("abs{}", n) }
+}
+
+/// twin of `Driver/Sess.lean digest`
+pub fn digest(xs: &mut Xstate, dict0: usize) -> String {
+    let d = xs.verif_dump();
+    format!("{},mode={},nested={},flows={},code={},dmap={},dict={},marks={}/{}/{}/{}/{}/{}/{}",
+        vmcanon::full_dump(xs), d.mode, d.nested, d.flows, d.code_len, d.debug_map_len, format!("+{}", d.dict_len - dict0),
+        d.marks[0], d.marks[1], d.marks[2], d.marks[3], d.marks[4], d.marks[5], rel_di(dict0, d.marks[6]))
+}
+
+/// everything observable except the instruction meter, the interned-source count and accumulated output
+fn state_sig(xs: &mut Xstate) -> String {
+    let d = xs.verif_dump();
+    let vars: Vec<String> = xs.var_list().iter().map(|(n, c)| format!("{}={}", n, canon::cell(c))).collect();
+    format!("{} mode={} nested={} flows={} inputs={} code={} dmap={} dict={} marks={:?} log={:?} stop={} words={} vars={} code=[{}]",
+        vmcanon::core_dump(&d), d.mode, d.nested, d.flows, d.pending_inputs, d.code_len, d.debug_map_len, d.dict_len, d.marks,
+        d.reverse_log_len, d.about_to_stop, xs.word_list().len(), vars.join(","), vmcanon::code_str(xs))
+}
+
+#[derive(Clone)]
+pub enum Op { Eval(String), Compile(String), Run, Abort, Line(String) }
+
+impl Op {
+    pub fn text(&self) -> String {
+        match self { Op::Eval(s) => format!("eval `{}`", s), Op::Compile(s) => format!("compile `{}`", s), Op::Run => "run".into(), Op::Abort => "abort_run".into(), Op::Line(s) => format!("line `{}`", s) }
+    }
+    fn src(&self) -> Option<&str> {
+        match self { Op::Eval(s) | Op::Compile(s) | Op::Line(s) => Some(s), _ => None }
+    }
+}
+
+/// apply one operation; the answer in the protocol's vocabulary (`ok` / `rej e` / `fail e` / `panic`)
+pub fn apply(xs: &mut Xstate, op: &Op) -> String {
+    let res = |r: Option<Xresult>, rejected: bool| match r {
+        None => "panic".to_string(),
+        Some(Ok(())) => "ok".to_string(),
+        Some(Err(e)) => format!("{} {}", if rejected { "rej" } else { "fail" }, canon::err(&e)),
+    };
+    match op {
+        Op::Eval(s) => {
+            let mut probe = xs.clone();
+            let rejected = matches!(crate::guarded(|| probe.compile(s)), Some(Err(_)));
+            res(crate::guarded(|| xs.eval(s)), rejected)
+        }
+        Op::Compile(s) => res(crate::guarded(|| xs.compile(s)), true),
+        Op::Run => res(crate::guarded(|| xs.run()), false),
+        Op::Abort => { xs.abort_run(); "ok".into() }
+        Op::Line(s) => {
+            // what src/repl.rs run_line does
+            let r = crate::guarded(|| xs.compile(s));
+            match r {
+                Some(Ok(())) => {
+                    let r2 = crate::guarded(|| xs.run());
+                    if !matches!(r2, Some(Ok(()))) { xs.abort_run(); }
+                    res(r2, false)
+                }
+                other => { xs.abort_run(); res(other, true) }
+            }
+        }
+    }
+}
+
+fn fresh() -> Xstate {
+    let mut xs = Xstate::boot().unwrap();
+    xs.intercept_stdout(true);
+    xs.set_insn_limit(Some(LIMIT)).unwrap();
+    xs
+}
+
+const GOOD: &[&str] = &[
+    "1 2 3", "10 var a", "a 1 + ! a", ": sq dup * ;", ": add3 3 + ;", "4 sq", "[ 1 2 3 ] var vv", "7 add3", "\"s\" var str",
+    ": fact dup 1 > if dup 1 - fact * then ;", "3 fact", "late lw : uses-lw lw ;", ": lw 5 ;", "#( 2 3 * #)", "#( 7 const seven #) seven",
+    "drop", "depth", "5 0 do I loop", ": loc local x x x + ;", "21 loc", "{ 1 2 }", "1 if 2 else 3 then", "nil",
+];
+
+/// well-formed prefixes that leave something open: (text, opens a meta block?)
+const OPENERS: &[&str] = &[
+    "1 if", "1 if 2 else", "begin 1", "begin 0 while", "5 0 do I", "[ 1 2", "{ 1", ": half 2", ": q local z z", "1 case 1 of 5",
+    "#( 1 2", "#( : mf 1 ;", "#( 3 const c3", "#( #( 1", "#( [ 1", "#( 1 if", ": w #( 2", "[ #( 1 2 + #)", "9 8", "",
+];
+
+const FAILING: &[&str] = &[
+    "foo-unknown", "then", ";", "]", "}", "#)", "endcase", "loop", "repeat", "until", "else", "endof", "break", "9 var inside", "4 const k4",
+    "! nosuch", "local lx", ":", "var", "const", "late", "#( 1 0 / #)", "#( drop #)", "#( a #)", "#( 5 ! a #)", "#( 1 var mv #)", "#( nosuch #)",
+    "#( 1 2 + ) #)", "#( \"str\" 1 + #)", "#( : g 1 0 / ; g #)", "#( begin #)",
+];
+
+const TRAILING: &[&str] = &["", "2 3", "\"tail\" print", ": never 1 ;", "99 var never-var", "drop drop drop", "then ; ]", "#( 1 #)", "1 0 /"];
+
+const PROBES: &[&str] = &[
+    "4", "depth", "5 var pv pv", ": pg 1 2 + ; pg", "1 if 2 else 3 then", "3 0 do I loop", "[ 1 2 ]", "#( 1 2 + #)", "#( 6 const six #) six",
+    "begin 1 until", "0 case 0 of 7 endof endcase", ": ploc local y y ; 8 ploc", "late pl : upl pl ; : pl 3 ; upl", "depth drop", "nil nil?",
+    "a", "sq", "vv", "lw", "seven", "half", "mf", "c3", "never", "never-var", "inside", "k4", "mv", "g", "\"p\" print", "I", "drop",
+];
+
+fn gen_rejected(r: &mut Rng) -> String {
+    let mut parts: Vec<&str> = Vec::new();
+    for _ in 0..r.below(3) { parts.push(*r.pick(OPENERS)); }
+    parts.push(*r.pick(FAILING));
+    parts.push(*r.pick(TRAILING));
+    parts.into_iter().filter(|s| !s.is_empty()).collect::<Vec<_>>().join(" ")
+}
+
+fn gen_good(r: &mut Rng, cfg: &GenCfg) -> String {
+    if r.chance(25) { gen_program(r, cfg).0 } else { (*r.pick(GOOD)).to_string() }
+}
+
+fn op_code(op: &Op) -> Option<String> {
+    let enc = |k: &str, s: &str| lex_all(s).map(|t| format!("{}:{}", k, t.text.join("|")));
+    match op {
+        Op::Eval(s) => enc("e", s),
+        Op::Compile(s) => enc("c", s),
+        Op::Line(s) => enc("l", s),
+        Op::Run => Some("r".into()),
+        Op::Abort => Some("a".into()),
+    }
+}
+
+/// the whole history as one request for the session model
+pub fn correspondence(ctx: &mut Ctx, pid: &str, ops: &[Op]) {
+    // the model's dictionary is never empty, so that a context mark of 0 (absolute) and a mark at the boot
+    // dictionary's size (relative +0) cannot be confused
+    let mut words: Vec<String> = vec!["dup".to_string()];
+    let mut codes: Vec<String> = Vec::new();
+    for op in ops {
+        match op_code(op) {
+            Some(c) => codes.push(c),
+            None => { ctx.tag("corr:skipped-lex-error"); return; }
+        }
+        if let Some(s) = op.src() { if let Some(t) = lex_all(s) { words.extend(t.words); } }
+    }
+    let mut xs = fresh();
+    let d = xs.verif_dump();
+    let dict0 = d.dict_len;
+    let req = format!("{} sess dict={} heap=v({}) lim={}/-/- ops={}", pid, dict_for(&xs, &words),
+        d.heap.iter().map(canon::cell).collect::<Vec<_>>().join(","), LIMIT, codes.join(";"));
+    let mut answers: Vec<String> = Vec::new();
+    for op in ops {
+        let a = apply(&mut xs, op);
+        if a == "panic" { answers.push("panic@".into()); break; }
+        answers.push(format!("{}@{}", a, digest(&mut xs, dict0)));
+    }
+    ctx.case(req, format!("{}#code={}", answers.join(";"), vmcanon::code_str(&xs)));
+}
+
+fn styled(r: &mut Rng, style: usize, s: String) -> Vec<Op> {
+    match style {
+        0 => vec![Op::Eval(s)],
+        1 => vec![Op::Line(s)],
+        _ => if r.bool() { vec![Op::Compile(s), Op::Run] } else { vec![Op::Eval(s)] },
+    }
+}
+
+pub fn run(ctx: &mut Ctx) {
+    let cfg = GenCfg { endless: false, malformed_percent: 0, max_depth: 2, max_stmts: 3, ..GenCfg::default() };
+    for _ in 0..ctx.n {
+        let style = ctx.rng.below(3);
+        ctx.tag(["style:eval", "style:repl-line", "style:mixed"][style]);
+        let mut pre: Vec<Op> = Vec::new();
+        for _ in 0..ctx.rng.below(4) { let g = gen_good(&mut ctx.rng, &cfg); pre.extend(styled(&mut ctx.rng, style, g)); }
+        let runtime_failure = ctx.rng.chance(25);
+        if runtime_failure {
+            // --- a line that fails while it runs
+            ctx.tag("kind:runtime-failure");
+            let marker = format!("MARK{}", ctx.rng.below(1000));
+            let body = *ctx.rng.pick(&["1 0 /", "drop drop drop drop drop drop drop drop drop", "\"x\" 1 +", ": boom 1 0 / ; boom 5", "3 0 do 1 0 / loop", "[ 1 0 / ]", "nosuchvar-at-all"]);
+            let line = format!("\"{}\" print 11 {} 22", marker, body);
+            let bad = if style == 0 { Op::Eval(line.clone()) } else { Op::Line(line.clone()) };
+            let mut ops = pre.clone();
+            ops.push(bad.clone());
+            let nprobes = ctx.rng.below(3) + 1;
+            let probes: Vec<Op> = (0..nprobes).map(|_| {
+                let p = (*ctx.rng.pick(&["depth drop 7 8 +", "5 var rv rv", ": rp 1 ; rp", "#( 2 2 * #)", "[ 1 ]", "3 0 do I loop"])).to_string();
+                if style == 0 { Op::Eval(p) } else { Op::Line(p) }
+            }).collect();
+            ops.extend(probes.iter().cloned());
+            correspondence(ctx, "C10", &ops);
+            let mut xs = fresh();
+            for op in &pre { apply(&mut xs, op); }
+            let r = apply(&mut xs, &bad);
+            let hist = || ops.iter().map(|o| o.text()).collect::<Vec<_>>().join("; ");
+            if r == "ok" || r.starts_with("rej") { ctx.tag("runtime-failure:did-not-fail"); }
+            for p in &probes {
+                let out0 = xs.stdout().map(|s| s.len()).unwrap_or(0);
+                let r = apply(&mut xs, p);
+                let out = xs.stdout().map(|s| s[out0..].to_string()).unwrap_or_default();
+                ctx.check(r == "ok" && !out.contains(&marker), || format!("C10 runtime-failure {}", hist()),
+                    || "every later line succeeds and prints nothing of the failed line".into(), || format!("{} -> {} out={:?}", p.text(), r, out));
+            }
+            continue;
+        }
+        // --- a rejected source
+        let rejected_src = gen_rejected(&mut ctx.rng);
+        let bad = match style { 0 => Op::Eval(rejected_src.clone()), 1 => Op::Line(rejected_src.clone()), _ => if ctx.rng.bool() { Op::Compile(rejected_src.clone()) } else { Op::Eval(rejected_src.clone()) } };
+        let nprobes = ctx.rng.below(4) + 1;
+        let mut probes: Vec<Op> = Vec::new();
+        for _ in 0..nprobes {
+            let p = if ctx.rng.chance(15) { gen_program(&mut ctx.rng, &cfg).0 } else { (*ctx.rng.pick(PROBES)).to_string() };
+            probes.extend(styled(&mut ctx.rng, style, p));
+        }
+        let mut ops = pre.clone();
+        ops.push(bad.clone());
+        ops.extend(probes.iter().cloned());
+        correspondence(ctx, "C10", &ops);
+        // oracle: with vs without the rejected source
+        let mut with = fresh();
+        let mut without = fresh();
+        for op in &pre { apply(&mut with, op); apply(&mut without, op); }
+        let r = apply(&mut with, &bad);
+        let hist = || ops.iter().map(|o| o.text()).collect::<Vec<_>>().join("; ");
+        if !r.starts_with("rej") {
+            ctx.tag(if r == "ok" { "rejected:built-after-all" } else { "rejected:failed-at-run-time" });
+            continue;
+        }
+        if r.contains("insn_limit_reached") {
+            // the instruction budget is a resource like time: what a rejected source's meta blocks consumed is
+            // not given back, so a history that exhausts it is outside what the oracle can compare
+            ctx.tag("rejected:exhausted-the-instruction-budget");
+            continue;
+        }
+        ctx.tag("kind:rejected");
+        for o in OPENERS { if !o.is_empty() && rejected_src.contains(o) { ctx.tag(&format!("open:{}", o)); } }
+        if style == 1 { without.abort_run(); }
+        let (a, b) = (state_sig(&mut with), state_sig(&mut without));
+        ctx.check(a == b, || format!("C10 after-rejected {}", hist()), || b.clone(), || a.clone());
+        for p in &probes {
+            let (o1, o2) = (with.stdout().map(|s| s.len()).unwrap_or(0), without.stdout().map(|s| s.len()).unwrap_or(0));
+            let r1 = apply(&mut with, p);
+            let r2 = apply(&mut without, p);
+            if r1.contains("insn_limit_reached") || r2.contains("insn_limit_reached") { ctx.tag("probe:exhausted-the-instruction-budget"); break; }
+            let out1 = with.stdout().map(|s| s[o1..].to_string()).unwrap_or_default();
+            let out2 = without.stdout().map(|s| s[o2..].to_string()).unwrap_or_default();
+            let (a, b) = (state_sig(&mut with), state_sig(&mut without));
+            ctx.check(r1 == r2 && out1 == out2 && a == b, || format!("C10 probe {} after {}", p.text(), hist()),
+                || format!("{} out={:?} {}", r2, out2, b), || format!("{} out={:?} {}", r1, out1, a));
+        }
+    }
+}
